@@ -25,12 +25,18 @@ type c17Case struct {
 	Line  int    `json:"line"`
 	From  int    `json:"from"` // first tick of the line in this block
 	To    int    `json:"to"`
-	Len   int    `json:"len"` // program length
+	Len   int    `json:"len"`            // program length
 	Tick  int    `json:"tick,omitempty"` // replay: one position
 	Prog  []int  `json:"prog,omitempty"`
 	Ptr   uint16 `json:"ptr,omitempty"`
 	OnFor int    `json:"on_for,omitempty"`
+	// Pre (mode "offwrite"): index+1 of the register write made while the LCD is off, before the program runs (0: all)
+	Pre int `json:"pre,omitempty"`
 }
+
+// register writes a guest may make while the LCD is off; none of them may re-arm the OAM bug
+var c17PreWrites = [][2]uint16{{0xff44, 0x00}, {0xff44, 0x90}, {0xff41, 0x20}, {0xff41, 0xff}, {0xff45, 0x00}, {0xff40, 0x13}, {0xff40, 0x7f},
+	{0xff42, 0x55}, {0xff43, 0x55}, {0xff4a, 0x00}, {0xff4b, 0x07}, {0xff47, 0xe4}, {0xff48, 0xe4}, {0xff49, 0xe4}, {0xff0f, 0x02}, {0xffff, 0x02}}
 
 // oamBus serves OAM from the expected image so that the reference never touches the real OAM.
 type oamBus struct {
@@ -101,101 +107,127 @@ func c17Check(l *explore.Local, _ struct{}, c c17Case) *explore.Fail {
 	if c.Ptr != 0 {
 		ptrs = []uint16{c.Ptr}
 	}
+	pres := []int{0}
+	if c.Mode == "offwrite" {
+		pres = nil
+		for i := range c17PreWrites {
+			if c.Pre == 0 || c.Pre == i+1 {
+				pres = append(pres, i+1)
+			}
+		}
+	}
 	for tick := c.From; tick < c.To; tick++ {
-		if c.Tick == 0 || c.Tick == tick {
-			// snapshot everything that the excursion touches
-			sp, so, si, st, sc, sm, sa := *m.P, *m.OAM, *m.I, *m.T, *m.CPU, *m.Map, *m.A
-			restore := func() { *m.P, *m.OAM, *m.I, *m.T, *m.CPU, *m.Map, *m.A = sp, so, si, st, sc, sm, sa }
-			lcdc := m.Map.Read(0xff40)
-			switch c.Mode {
-			case "off":
-				m.Map.Write(0xff40, lcdc&0x7f)
-			case "offonoff":
-				m.Map.Write(0xff40, lcdc&0x7f)
-				m.Hardware()
-				m.Map.Write(0xff40, lcdc|0x80)
-				for i := 0; i < c.OnFor; i++ {
+		for _, pre := range pres {
+			if c.Tick == 0 || c.Tick == tick {
+				// snapshot everything that the excursion touches
+				sp, so, si, st, sc, sm, sa := *m.P, *m.OAM, *m.I, *m.T, *m.CPU, *m.Map, *m.A
+				restore := func() { *m.P, *m.OAM, *m.I, *m.T, *m.CPU, *m.Map, *m.A = sp, so, si, st, sc, sm, sa }
+				lcdc := m.Map.Read(0xff40)
+				switch c.Mode {
+				case "off":
+					m.Map.Write(0xff40, lcdc&0x7f)
+				case "offwrite":
+					m.Map.Write(0xff40, lcdc&0x7f)
 					m.Hardware()
-				}
-				m.Map.Write(0xff40, lcdc&0x7f)
-			case "on":
-				if m.Map.Read(0xff41)&3 == 2 {
-					restore()
+					w := c17PreWrites[pre-1]
+					m.Map.Write(w[0], uint8(w[1])&^uint8(boolTo(w[0] == 0xff40)*0x80))
+				case "offonoff":
+					m.Map.Write(0xff40, lcdc&0x7f)
 					m.Hardware()
-					continue
-				}
-			}
-			m.Hardware() // at least one PPU tick has always happened after the switch
-			// the OAM image the reference starts from: what DMA put there (read back while no bug can be armed by the read itself matters not: reads go through PPU-side access)
-			for i := range oam0 {
-				oam0[i] = uint8(i*7 + i/8*0x21 + 0x13)
-			}
-			s2p, s2o, s2i, s2t, s2c, s2m, s2a := *m.P, *m.OAM, *m.I, *m.T, *m.CPU, *m.Map, *m.A
-			for _, ptr := range ptrs {
-				for _, prog := range progs {
-					*m.P, *m.OAM, *m.I, *m.T, *m.CPU, *m.Map, *m.A = s2p, s2o, s2i, s2t, s2c, s2m, s2a
-					exp := oam0
-					var code []uint8
-					for _, oi := range prog {
-						op := append([]uint8(nil), c17Ops[oi]...)
-						if len(op) == 3 {
-							op[1], op[2] = uint8(ptr), uint8(ptr>>8)
-						}
-						code = append(code, op...)
+					m.Map.Write(0xff40, lcdc|0x80)
+					for i := 0; i < c.OnFor; i++ {
+						m.Hardware()
 					}
-					for i, b := range code {
-						m.Map.Write(0xc000+uint16(i), b)
-					}
-					regs := cpu.VRegs{A: 0x5a, F: 0x00, B: uint8(ptr >> 8), C: uint8(ptr), D: uint8(ptr >> 8), E: uint8(ptr), H: uint8(ptr >> 8), L: uint8(ptr), SP: ptr, PC: 0xc000}
-					m.CPU.VSet(regs)
-					m.I.Disable()
-					r := toRef(regs)
-					bus := oamBus{m, &exp}
-					judged := true
-					for range prog {
-						info := r.Step(bus)
-						for k := 0; k < info.Cycles; k++ {
-							if lcdOn() && m.Map.Read(0xff41)&3 == 2 {
-								judged = false // LCD on and mode 2: the OAM bug may legitimately strike
-							}
-							m.Cycle()
-						}
-						l.Trans(1)
-					}
-					if lcdOn() && m.Map.Read(0xff41)&3 == 2 {
-						judged = false
-					}
-					if !judged {
+					m.Map.Write(0xff40, lcdc&0x7f)
+				case "on":
+					if m.Map.Read(0xff41)&3 == 2 {
+						restore()
+						m.Hardware()
 						continue
 					}
-					l.Eval(1)
-					// observe OAM: with the LCD on this must happen outside mode 2, so step the PPU out of it first
-					for lcdOn() && m.Map.Read(0xff41)&3 == 2 {
-						m.P.EndMachineCycle()
-					}
-					for i := 0; i < 160; i++ {
-						if got := m.Map.Read(0xfe00 + uint16(i)); got != exp[i] {
-							state := "LCD off (switched off in mode " + itoa(int(sp.ReadSTAT()&3)) + ")"
-							if c.Mode == "on" {
-								state = "LCD on outside mode 2"
+				}
+				m.Hardware() // at least one PPU tick has always happened after the switch
+				// the OAM image the reference starts from: what DMA put there (read back while no bug can be armed by the read itself matters not: reads go through PPU-side access)
+				for i := range oam0 {
+					oam0[i] = uint8(i*7 + i/8*0x21 + 0x13)
+				}
+				s2p, s2o, s2i, s2t, s2c, s2m, s2a := *m.P, *m.OAM, *m.I, *m.T, *m.CPU, *m.Map, *m.A
+				for _, ptr := range ptrs {
+					for _, prog := range progs {
+						*m.P, *m.OAM, *m.I, *m.T, *m.CPU, *m.Map, *m.A = s2p, s2o, s2i, s2t, s2c, s2m, s2a
+						exp := oam0
+						var code []uint8
+						for _, oi := range prog {
+							op := append([]uint8(nil), c17Ops[oi]...)
+							if len(op) == 3 {
+								op[1], op[2] = uint8(ptr), uint8(ptr>>8)
 							}
-							if c.Mode == "offonoff" {
-								state = "LCD off (off, on, off again)"
+							code = append(code, op...)
+						}
+						for i, b := range code {
+							m.Map.Write(0xc000+uint16(i), b)
+						}
+						regs := cpu.VRegs{A: 0x5a, F: 0x00, B: uint8(ptr >> 8), C: uint8(ptr), D: uint8(ptr >> 8), E: uint8(ptr), H: uint8(ptr >> 8), L: uint8(ptr), SP: ptr, PC: 0xc000}
+						m.CPU.VSet(regs)
+						m.I.Disable()
+						r := toRef(regs)
+						bus := oamBus{m, &exp}
+						judged := true
+						for range prog {
+							info := r.Step(bus)
+							for k := 0; k < info.Cycles; k++ {
+								if lcdOn() && m.Map.Read(0xff41)&3 == 2 {
+									judged = false // LCD on and mode 2: the OAM bug may legitimately strike
+								}
+								m.Cycle()
 							}
-							f := explore.Failf("OAM altered without a CPU write or DMA: "+state,
-								"%s, line %d tick %d, pointer %04x, program % x: OAM[%d]=%02x, expected %02x", state, c.Line, tick, ptr, code, i, got, exp[i])
-							f.Case = c17Case{Mode: c.Mode, Line: c.Line, From: c.From, To: c.To, Len: len(prog), Tick: tick, Prog: prog, Ptr: ptr, OnFor: c.OnFor}
-							return f
+							l.Trans(1)
+						}
+						if lcdOn() && m.Map.Read(0xff41)&3 == 2 {
+							judged = false
+						}
+						if !judged {
+							continue
+						}
+						l.Eval(1)
+						// observe OAM: with the LCD on this must happen outside mode 2, so step the PPU out of it first
+						for lcdOn() && m.Map.Read(0xff41)&3 == 2 {
+							m.P.EndMachineCycle()
+						}
+						for i := 0; i < 160; i++ {
+							if got := m.Map.Read(0xfe00 + uint16(i)); got != exp[i] {
+								state := "LCD off (switched off in mode " + itoa(int(sp.ReadSTAT()&3)) + ")"
+								if c.Mode == "on" {
+									state = "LCD on outside mode 2"
+								}
+								if c.Mode == "offonoff" {
+									state = "LCD off (off, on, off again)"
+								}
+								if c.Mode == "offwrite" {
+									state = fmt.Sprintf("LCD off, after a write to %04x", c17PreWrites[pre-1][0])
+								}
+								f := explore.Failf("OAM altered without a CPU write or DMA: "+state,
+									"%s, line %d tick %d, pointer %04x, program % x: OAM[%d]=%02x, expected %02x", state, c.Line, tick, ptr, code, i, got, exp[i])
+								f.Case = c17Case{Mode: c.Mode, Line: c.Line, From: c.From, To: c.To, Len: len(prog), Tick: tick, Prog: prog, Ptr: ptr, OnFor: c.OnFor, Pre: pre}
+								return f
+							}
 						}
 					}
 				}
+				l.Outcome(uint64(sp.ReadSTAT()&3) | uint64(c.Line)<<8 | uint64(pre)<<16)
+				restore()
 			}
-			l.Outcome(uint64(sp.ReadSTAT()&3) | uint64(c.Line)<<8)
-			restore()
 		}
 		m.Hardware()
 	}
 	return nil
+}
+
+func boolTo(b bool) int {
+	if b {
+		return 1
+	}
+	return 0
 }
 
 var _ = ref.FZ
@@ -204,14 +236,14 @@ var _ = fmt.Sprintf
 func init() {
 	register("C17", "model_checking", func(c *Ctx) {
 		if c.R != nil {
-			c.R.Rule = "OAM is filled by DMA with 20 pairwise different rows; at EVERY cycle 0-113 of lines 0, 1, 143, 144, 153 the LCD is switched off (so in each mode and at each point of mode 2), also off-on-off, or left on outside mode 2; from a snapshot at that point every program of the length bound over 23 instructions that move BC/DE/HL/SP or read/write through them (16-bit INC/DEC, PUSH/POP, LD A,(HL+/-), LD (HL+/-),A, LD A,(BC), LD (DE),A, LD A,(nn)) is run with every pointer in {FDFF,FE00,FE08,FE50,FE98,FE9F,FEA0,FEFF,FF00}; afterwards OAM must equal plain memory updated only by the reference CPU's writes into FE00-FE9F"
+			c.R.Rule = "OAM is filled by DMA with 20 pairwise different rows; at EVERY cycle 0-113 of lines 0, 1, 143, 144, 153 the LCD is switched off (so in each mode and at each point of mode 2), also off-on-off, or left on outside mode 2, or switched off and followed by one write to a video/interrupt register; from a snapshot at that point every program of the length bound over 23 instructions that move BC/DE/HL/SP or read/write through them (16-bit INC/DEC, PUSH/POP, LD A,(HL+/-), LD (HL+/-),A, LD A,(BC), LD (DE),A, LD A,(nn)) is run with every pointer in {FDFF,FE00,FE08,FE50,FE98,FE9F,FEA0,FEFF,FF00}; afterwards OAM must equal plain memory updated only by the reference CPU's writes into FE00-FE9F"
 			c.R.Assumptions = []string{"with the LCD on, any run that touches mode 2 is not judged (the DMG bug may strike there)", "programs are straight-line"}
 		}
 		n := 1
 		if c.Thorough() {
 			n = 2
 		}
-		explore.Product(c.R, "oam-integrity", explore.PartOpt{Bound: fmt.Sprintf("programs of length <= %d (one extra block of length %d on line 1)", n, n+1), Domain: "switch-off at every cycle of lines 0,1,143,144,153; off-on-off; LCD on outside mode 2"},
+		explore.Product(c.R, "oam-integrity", explore.PartOpt{Bound: fmt.Sprintf("programs of length <= %d (one extra block of length %d on line 1)", n, n+1), Domain: "switch-off at every cycle of lines 0,1,143,144,153; off-on-off; LCD on outside mode 2; switch-off at every cycle of lines 1 and 150 followed by one of 16 register writes (LY, STAT, LYC, LCDC with bit 7 clear, scroll, window, palettes, IF, IE)"},
 			func(yield func(c17Case) bool) {
 				for _, line := range []int{0, 1, 143, 144, 153} {
 					for from := 0; from < 114; from += 6 {
@@ -224,6 +256,14 @@ func init() {
 							if !yield(c17Case{Mode: "offonoff", Line: line, From: from, To: from + 6, Len: 1, OnFor: onFor}) {
 								return
 							}
+						}
+					}
+				}
+				// the LCD switched off at every cycle of a visible and of a v-blank line, then one register write, then the program
+				for _, line := range []int{1, 150} {
+					for from := 0; from < 114; from += 3 {
+						if !yield(c17Case{Mode: "offwrite", Line: line, From: from, To: from + 3, Len: 1}) {
+							return
 						}
 					}
 				}
